@@ -130,6 +130,15 @@ func (fg *FnGen) callWrites(x ssa.CallInstruction, set map[string]bool, all *boo
 				if strings.HasPrefix(m, "bytes(") {
 					m = "MemB"
 				}
+				if strings.HasPrefix(m, "elems(") {
+					for _, a := range c.Args {
+						if sl, ok := a.Type().Underlying().(*types.Slice); ok {
+							n, _, _ := fg.memVar(sl.Elem())
+							set[n] = true
+						}
+					}
+					continue
+				}
 				set[m] = true
 			}
 			return
@@ -456,6 +465,11 @@ func (fg *FnGen) applyContract(fr *Frame, ct *Contract, d callDesc, args []*Term
 		if len(ct.Modifies) > 0 {
 			set := map[string]bool{}
 			var byteTargets []*Term
+			type elemTarget struct {
+				mem, srt string
+				sl       *Term
+			}
+			var elemTargets []elemTarget
 			for _, m := range ct.Modifies {
 				if strings.HasPrefix(m, "bytes(") && strings.HasSuffix(m, ")") {
 					ce, err := ParseCE(m[6 : len(m)-1])
@@ -469,9 +483,33 @@ func (fg *FnGen) applyContract(fr *Frame, ct *Contract, d callDesc, args []*Term
 					set["MemB"] = true
 					continue
 				}
+				if strings.HasPrefix(m, "elems(") && strings.HasSuffix(m, ")") {
+					// only the backing array of this (non-byte) slice changes
+					if ce, err := ParseCE(m[6 : len(m)-1]); err == nil {
+						if v, err2 := env.eval(ce); err2 == nil && v.T != nil && v.T.Sort == SSlice && v.Ty != nil {
+							if sl, ok := v.Ty.Underlying().(*types.Slice); ok {
+								if mn, ms, isB := fg.memVar(sl.Elem()); !isB {
+									elemTargets = append(elemTargets, elemTarget{mn, ms, v.T})
+									continue
+								}
+							}
+						}
+					}
+					fg.bindFailure(fmt.Sprintf("modifies@%s", d.short), fmt.Errorf("cannot evaluate %s", m), pos)
+					continue
+				}
 				set[m] = true
 			}
 			st2 = fg.havocSet(st, set)
+			for _, et := range elemTargets {
+				if set[et.mem] {
+					continue
+				}
+				mem := fg.lookup(st2, et.mem, et.srt)
+				row := fg.freshConst(fr.prefix+name+"_elems", et.srt[len("(Array Int "):len(et.srt)-1])
+				st2 = st2.clone()
+				fg.set(st2, et.mem, et.srt, Store(mem, SBase(et.sl), row))
+			}
 			if len(byteTargets) > 0 && !set["MemB"] {
 				hs := ArraySort(SInt, SString)
 				mem := fg.lookup(st2, "MemB", hs)
